@@ -1,5 +1,6 @@
 """Grid lookup rules (C08, C15, C01): R-TWO-PASS, R-GRID-SIGN, R-ENDIAN-ARMS, R-CONTAINS-AXES, R-MULTIMAP."""
 import mir
+import keys as K
 import pertuple
 from rulebase import rule
 from rules.loops import is_const_num, upd_chain, _input_term
@@ -393,3 +394,50 @@ def r_null_last(cx):
         cx.ob("R-NULL-LAST", "grids_at/null0", False, "anchor-missing: no null-grid answer (Coor4D::origin) in grids_at",
               cx.where(f.d["span"]))
     cx.count("R-NULL-LAST", "null_answers", n)
+
+
+@rule("R-NULL-AFTER-STRIP", ["C08"])
+def r_null_after_strip(cx):
+    """`@` marks a grid as optional, `null` names the null grid, and the documented spelling of an (always available)
+    null grid at the end of a list is `@null`. In every constructor that walks a grid list (gridshift, deformation,
+    deflection) the name compared with "null" is the name with the `@` prefix removed: otherwise `@null` is looked up as
+    an optional grid file called `null`, not found, silently skipped - and points outside all grids become NaN."""
+    from rules.keysrules import str_eq_guards
+    n = 0
+    for fn in ("inner_op::gridshift::new", "inner_op::deformation::new", "inner_op::deflection::new"):
+        if not cx.f.has_fn(fn):
+            continue
+        f = cx.f.fn(fn)
+        tests = []
+        for bb, t in f.calls():
+            a = f.arg_terms(bb)
+            if len(a) != 2 or not ((f.callee(t) or "").rsplit("::", 1)[-1] in ("eq", "ne")):
+                continue
+            for lit_i, other_i in ((0, 1), (1, 0)):
+                if K._const_key(a[lit_i]) == "null":
+                    lhs = a[other_i]
+                    if lhs[0] == "refplace" and not lhs[3]:
+                        lhs = f.local_value(lhs[2], f.end_point(bb))
+                    tests.append((bb, lhs))
+        if not tests:
+            cx.ob("R-NULL-AFTER-STRIP", fn, False, "%s does not recognise the null grid" % fn, cx.where(f.d["span"]))
+            n += 1
+            continue
+        for succ, lhs in tests:
+            n += 1
+            hit = []
+
+            def vis(y):
+                if y[0] == "call" and isinstance(y[1], str) and y[1].rsplit("::", 1)[-1] in (
+                        "trim_start_matches", "strip_prefix", "trim_matches", "trim_left_matches") and len(y[2]) > 1:
+                    p = mir.strip_refs(y[2][1])
+                    if p[0] == "const" and p[2] in (("char", "@"), ("str", "@")):
+                        hit.append(1)
+                return True
+            mir.walk(lhs, vis)
+            ok = bool(hit)
+            cx.ob("R-NULL-AFTER-STRIP", fn, ok,
+                  "%s compares the name with `null` after removing the `@` prefix" % fn if ok else
+                  "%s compares the grid name with `null` before the `@` prefix is removed: `@null` is treated as a missing "
+                  "optional grid and skipped, so the operator has no null grid" % fn, cx.where(f.d["span"]))
+    cx.count("R-NULL-AFTER-STRIP", "null_tests", n)
